@@ -98,7 +98,7 @@ type placement struct {
 // one rotating start offset plus one guard placement (value class and
 // alignment are independent dimensions of the kernels).
 func casePlacements(c *vrt.Ctx, all []placement, vc vclass, n, incIdx int) []placement {
-	if c.Thorough() || vc == vcUniform || vc == vcInfHead || len(all) < 10 {
+	if c.Thorough() || vc == vcUniform || vc == vcInfHead || vc == vcMix || len(all) < 10 {
 		return all
 	}
 	return []placement{all[(n+3*int(vc)+incIdx)&7], all[8+(n+int(vc)+incIdx)&1]}
